@@ -44,7 +44,7 @@ func main() {
 		c.Inconclusive("in-process setup failed: " + err.Error())
 		return
 	}
-	cfg := genCfg{maxDepth: 4, maxFan: 4, maxLeaves: 18, emptyIterP: 0.12}
+	cfg := genCfg{maxDepth: 4, maxFan: 4, maxLeaves: 18, emptyIterP: 0.12, offP: 0.07, offCritP: 0.5}
 
 	lo, hi := c.Slice(nTrees)
 	for i := lo; i < hi; i++ {
